@@ -162,8 +162,14 @@ def compare(full, summ_alone, replay, D, annual, h):
                 if r[col["TX"]] == "Sell" and "gain summary (sell)" in r[col["Memo"]].replace("\n", " "):
                     g, sfl = ref.parse_gain_cell(r[col["Cap. Gain"]])
                     if sfl is not None:
+                        # input feature for the known-finding signature: the original history has a real purchase of
+                        # this security settling within 30 days of that 1 January (the known shape); without one, the
+                        # only purchases near that date are rows the summary itself made up
+                        j1 = datetime.date.fromisoformat(r[col["Settl. Date"]])
+                        real = any(x["sec"] == sec and x["action"] == "Buy" and abs((datetime.date.fromisoformat(x["sd"]) - j1).days) <= 30 for x in h["rows"])
                         return {"what": "annual summary: a yearly 'gain summary (sell)' row at a loss is treated as superficial",
-                                "sec": sec, "summary_row_date": r[col["Settl. Date"]], "sfl": str(sfl["amount"])}
+                                "sec": sec, "summary_row_date": r[col["Settl. Date"]], "sfl": str(sfl["amount"]),
+                                "real_purchase_within_30_days_of_that_jan1": real}
     for sec, t in full["tables"].items():
         col = {x: i for i, x in enumerate(t["header"])}
         t2 = replay["tables"].get(sec)
@@ -344,13 +350,14 @@ def run(tier):
             seen_kinds = set()
             for f in j["findings"]:
                 kind = (f["what"], f.get("annual"), str(f.get("err", ""))[:40], f.get("later_global_split_near_earlier_split"),
-                        f.get("dust_holding_at_summary_date"))
+                        f.get("dust_holding_at_summary_date"), f.get("real_purchase_within_30_days_of_that_jan1"))
                 if kind in seen_kinds:
                     continue
                 seen_kinds.add(kind)
                 sig = {"what": f["what"], "annual": f.get("annual"), "err": str(f.get("err", "")),
                        "later_global_split_near_earlier_split": bool(f.get("later_global_split_near_earlier_split")),
-                       "dust_holding_at_summary_date": bool(f.get("dust_holding_at_summary_date"))}
+                       "dust_holding_at_summary_date": bool(f.get("dust_holding_at_summary_date")),
+                       "real_purchase_within_30_days_of_that_jan1": bool(f.get("real_purchase_within_30_days_of_that_jan1"))}
                 V.violation("%s [%s]" % (json.dumps(f)[:500], j["name"]),
                             {"kind": "summary_trip", "prop": PROP, "history": j["history"], "finding": f,
                              "summary_csv": j.get("summary_csv")}, sig)
